@@ -200,7 +200,8 @@ func (c *Ctx) handOffArgIsDequeued(rule string) {
 
 // stepProvenanceSeq walks the dispatcher step with every library helper that takes part in dequeue / decode / attach /
 // hand-off inlined, and names the values that reach the hand-off and the two setters:
-//   handoff:<tok>   setack:<tok>   setqueue:<tok>   (tok = deqval, parsed, ackid, nextq, ... or "other")
+//
+//	handoff:<tok>   setack:<tok>   setqueue:<tok>   (tok = deqval, parsed, ackid, nextq, ... or "other")
 func (c *Ctx) stepProvenanceSeq(rule string) *seqRule {
 	R := c.R
 	base := c.classifier(map[string]bool{"handoff": true}, nil)
